@@ -424,6 +424,76 @@ def same_task_part(_):
     return res
 
 
+def same_task_passthrough_part(_):
+    """passthrough mode (the LLM is prompted with the caller's own message list / prompt): requests of three API forms -
+    generate_async(messages=history), generate_async(prompt=..), generate_events_async(events=..) - awaited one after the
+    other from the same task; an input rail rewrites or approves.  Each request's LLM prompt is the one it gets alone, and
+    the message list a caller handed in is unchanged afterwards."""
+    import asyncio, copy
+    res = {"same_task_passthrough_sequences": 0, "same_task_passthrough_requests": 0, "viol": []}
+
+    def mk():
+        return rw.v1_world(in_order=("in1",), out_order=(), extra_yaml="passthrough: True\n")
+
+    reqs = {
+        "M": ("messages", [{"role": "user", "content": "MA my account number is 12345"}, {"role": "assistant", "content": "I will."}, {"role": "user", "content": "MB capital of France?"}]),
+        "N": ("messages", [{"role": "user", "content": "NA single message"}]),
+        "P": ("prompt", "PA a bare prompt"),
+        "E": ("events", [{"type": "UtteranceUserActionFinished", "final_transcript": "EA hello, I am somebody else"}]),
+    }
+
+    def run_seq(names, w, verdict):
+        async def go():
+            out = []
+            for n in names:
+                kind, payload = reqs[n]
+                mine = copy.deepcopy(payload)
+                m = w.mark()
+                w.llm_fn = llm_fn
+                w.verdicts = {"in1": verdict}
+                if kind == "messages":
+                    r = await w.rails.generate_async(messages=mine)
+                elif kind == "prompt":
+                    r = await w.rails.generate_async(prompt=mine)
+                else:
+                    r = await w.rails.generate_events_async(events=mine)
+                calls = w.since(m)[0]
+                out.append((tuple(str(c["prompt"]) for c in calls), mine == payload))
+            return out
+        loop = asyncio.new_event_loop()
+        try:
+            return loop.run_until_complete(go())
+        finally:
+            loop.close()
+
+    for verdict, vname in (("A", "approving-rail"), (("W", "RW rewritten text"), "rewriting-rail")):
+        alone = {n: run_seq([n], mk(), verdict)[0] for n in reqs}
+        for n, (prompts, unchanged) in alone.items():
+            if not unchanged:
+                res["viol"].append((f"callers-message-list-changed:passthrough:{vname}", f"request {n} alone: the list handed to the API differs after the call", {"engine": "E3-world", "prop": "C15", "same_task_passthrough": [n], "verdict": vname}))
+        for names in itertools.permutations(reqs, 2):
+            res["same_task_passthrough_sequences"] += 1
+            try:
+                got = run_seq(list(names), mk(), verdict)
+            except Exception as e:
+                res["viol"].append((f"generate-raised:same-task-passthrough:{'>'.join(names)}", repr(e), {"engine": "E3-world", "prop": "C15", "same_task_passthrough": list(names), "verdict": vname}))
+                continue
+            for n, g in zip(names, got):
+                res["same_task_passthrough_requests"] += 1
+                if g[0] != alone[n][0]:
+                    res["viol"].append((f"request-state-leaks-into-next-request:passthrough:{reqs[names[0]][0]}-then-{reqs[names[1]][0]}",
+                                        f"passthrough mode, {vname}, requests {list(names)} awaited from one task: the LLM prompt(s) of {n} are {str(g[0])[:300]}, alone {str(alone[n][0])[:300]}",
+                                        {"engine": "E3-world", "prop": "C15", "same_task_passthrough": list(names), "verdict": vname}))
+                    break
+    seen, uniq = set(), []
+    for v in res["viol"]:
+        if v[0] not in seen:
+            seen.add(v[0])
+            uniq.append(v)
+    res["viol"] = uniq
+    return res
+
+
 def run(rep, tier):
     from vf import par
     import vf.engines.world  # noqa
@@ -443,7 +513,7 @@ def run(rep, tier):
                 agg[k] = agg.get(k, 0) + v
         for sig, what, info in r["viol"]:
             rep.violation(sig, what, info)
-    for r in par.pmap(same_task_part, [0]):
+    for r in list(par.pmap(same_task_part, [0])) + list(par.pmap(same_task_passthrough_part, [0])):
         for k, v in r.items():
             if isinstance(v, int):
                 agg[k] = agg.get(k, 0) + v
@@ -473,6 +543,12 @@ def run(rep, tier):
 
 
 def replay(rp):
+    if rp.get("same_task_passthrough"):
+        r = same_task_passthrough_part(0)
+        for sig, what, info in r["viol"]:
+            print(sig, ":", what)
+        print(rp["what"])
+        return 0
     if rp.get("same_task"):
         r = same_task_part(0)
         for sig, what, info in r["viol"]:
